@@ -21,6 +21,7 @@ Used by Props/ComposeTables.lean.  Only the statements of the section-level lemm
 `loadNames_inside`, `secGetData_SecSt`, `load_gate`, `C02.secHdr_bridge`, `C02.secBytes_bridge`,
 `C02.load_eq_spec` are relied on (nothing about segments).
 -/
+import ElfioVerif.Props.C01
 import ElfioVerif.Props.C02
 import ElfioVerif.Props.C08
 import ElfioVerif.Lemmas.Inspect
@@ -351,5 +352,60 @@ theorem secResident_ready (img : Bytes) (hwf : WellFormedImage img) (o : Obj) (h
     exact hS'
   · simp only [List.getElem_set_ne hij]
     exact hL.secs j hj
+
+/-! ### segments -/
+
+/-- the segment side of a loaded object: one segment per program header, each showing the specification's
+    values (`C02.SegmentSpec`, including "a data request on any stream over the image delivers the file range")
+    and satisfying the loader invariant `LoadedSeg` -/
+structure SegsFrom (img : Bytes) (o : Obj) : Prop where
+  nsegs : o.segs.length = eh img "e_phnum"
+  segs : ∀ j (hj : j < o.segs.length), SegmentSpec img j o.segs[j] ∧ LoadedSeg [] o.segs[j] img
+
+theorem segs_of_load (img : Bytes) (o : Obj) (k : StreamKind) (isLazy : Bool) (htr : o.trans = [])
+    (r : LoadRes) (hr : load o { data := img, kind := k } isLazy = .ok r) (hs : LoadSpec img r) :
+    SegsFrom img r.obj := by
+  obtain ⟨_, h2, _⟩ := C01.load_inv o img k isLazy r hr
+  rw [htr] at h2
+  obtain ⟨_, _, _, _, _, _, _, _, _, ln, lg⟩ := hs
+  exact ⟨ln, fun j hj => ⟨lg j hj, h2 _ (List.getElem_mem hj)⟩⟩
+
+/-- a section data request does not touch the segments -/
+theorem SegsFrom.of_segs_eq {img : Bytes} {o o1 : Obj} (h : SegsFrom img o) (e : o1.segs = o.segs) : SegsFrom img o1 := by
+  refine ⟨by rw [e]; exact h.nsegs, ?_⟩
+  intro j hj
+  have hj' : j < o.segs.length := by rw [← e]; exact hj
+  have : o1.segs[j] = o.segs[j] := by simp only [e]
+  rw [this]; exact h.segs j hj'
+
+theorem segResident_none (img : Bytes) (o : Obj) (hS : SegsFrom img o) (j : Nat) (hj : eh img "e_phnum" ≤ j) :
+    segResident o j = none := by
+  unfold segResident
+  rw [List.getElem?_eq_none (by rw [hS.nsegs]; exact hj)]
+
+/-- **`segments[j]->get_data()`** on an object loaded from a well-formed image: the sections are untouched
+    (`LoadedFrom` is kept); the segment handed to the accessor shows the specification's type and file size, its
+    first `p_filesz` bytes are the file range of the segment (`C02.segFileBytes`), an allocation covers them -/
+theorem segResident_ready (img : Bytes) (o : Obj) (hL : LoadedFrom img o) (hS : SegsFrom img o) (j : Nat)
+    (hj : j < eh img "e_phnum") :
+    ∃ o1 g1, segResident o j = some (o1, g1) ∧ LoadedFrom img o1 ∧
+      g1.stype.toNat = ph img j "p_type" ∧ g1.filesz.toNat = ph img j "p_filesz" ∧
+      (g1.data.getD []).take g1.filesz.toNat = segFileBytes img j ∧
+      (∀ a, g1.data = some a → g1.filesz.toNat ≤ a.length) := by
+  have hj' : j < o.segs.length := by rw [hS.nsegs]; exact hj
+  obtain ⟨hspec, hinv⟩ := hS.segs j hj'
+  obtain ⟨_, f1, _, _, _, _, f6, _, _, _, fd⟩ := hspec
+  have hs0 : StOk o.trans img o.stream.kind { st := o.stream } := ⟨hL.sdata, rfl, fun a ha => by cases ha⟩
+  have hinv' : LoadedSeg o.trans o.segs[j] img := by rw [hL.trans]; exact hinv
+  obtain ⟨h1, h2, h3⟩ := segGetData_spec o.cls o.trans _ o.segs[j] img _ hs0 hinv'
+  have hd := fd { st := o.stream } hL.sdata
+  rw [← hL.cls, ← hL.trans] at hd
+  unfold segResident
+  rw [List.getElem?_eq_getElem hj']
+  refine ⟨_, _, rfl, ⟨hL.cls, hL.enc, hL.trans, h1.data, hL.nsecs, hL.secs⟩, by rw [h3.stype]; exact f1,
+    by rw [h3.filesz]; exact f6, by rw [h3.filesz]; exact hd, ?_⟩
+  intro a ha
+  have := h2.len a ha
+  omega
 
 end ElfioVerif.LoadedTables
